@@ -261,6 +261,9 @@ pub fn gen_c11(rng: &mut Rng, _i: u64, _tier: Tier) -> Script {
     });
     s.set("driver", rng.pick(&[0i64, 0, 1, 2]));
     s.set("clauses", PC_C11);
+    if rng.chance(1, 4) {
+        s.set("pre_reset", rng.range(1, 3000) as i64);
+    }
     let plain = if rng.chance(4, 5) { far_repeat_plain(rng, w) } else { { let pn = rng.range(0, 4000); gen::plaintext(rng, pn) } };
     let n = plain.len();
     let style = rng.next_u64();
